@@ -2,9 +2,12 @@ package props
 
 import (
 	"bytes"
+	"crypto/rand"
 	"fmt"
+	"io"
 	"math/big"
 	"sync"
+	"time"
 
 	ike "github.com/free5gc/ike"
 	"github.com/free5gc/ike/eap"
@@ -21,6 +24,14 @@ import (
 	"verifharness/mon"
 	"verifharness/ref"
 )
+
+// slowReader delays every read a little (an entropy source under load): widens the windows between critical sections
+type slowReader struct{ r io.Reader }
+
+func (s slowReader) Read(p []byte) (int, error) {
+	time.Sleep(300 * time.Microsecond)
+	return s.r.Read(p)
+}
 
 // Fresh-process cases of C09, C10, C18, C20 and C01/C06 (C11's are in c11.go).
 
@@ -280,6 +291,96 @@ func init() {
 			}
 			return ""
 		}},
+	}
+	// storms: 64 goroutines all inside the SAME operation at once (a burst of new SAs after a restart), with the
+	// ordinary and with a slow random source; every call must come back with a usable result
+	type storm struct {
+		name string
+		f    func(r *core.Rng) string
+	}
+	storms := []storm{
+		{"NewIKESAKey", func(r *core.Rng) string {
+			k := newInfoKey(r.Intn(3), r.Intn(3), r.Intn(3), 0)
+			pr, err := k.ToProposal()
+			if err != nil {
+				return err.Error()
+			}
+			sa, pub, err := security.NewIKESAKey(pr, k.DhInfo.GetPublicValue(big.NewInt(int64(r.U32())+2)), r.Bytes(32), r.U64(), r.U64())
+			if err != nil || sa == nil || len(pub) != 128 {
+				return fmt.Sprint("NewIKESAKey: ", err)
+			}
+			return ""
+		}},
+		{"CalculateDiffieHellmanMaterials", func(r *core.Rng) string {
+			k := newInfoKey(0, 0, 0, r.Intn(2))
+			pub, sh, err := security.CalculateDiffieHellmanMaterials(k, r.Bytes(100))
+			if err != nil || len(pub) != len(sh) || len(pub) < 128 {
+				return fmt.Sprint("CalculateDiffieHellmanMaterials: ", err)
+			}
+			return ""
+		}},
+		{"GenerateRandomNumber + protection", func(r *core.Rng) string {
+			if x, err := security.GenerateRandomNumber(); err != nil || x.BitLen() < 129 {
+				return fmt.Sprint("GenerateRandomNumber: ", err)
+			}
+			s := ref.Suites[r.Intn(9)]
+			raw := libsa.RandomRaw(r, s)
+			m := &abs.Msg{ISPI: r.U64(), RSPI: r.U64(), Major: 2, Exch: 37, MsgID: r.U32(), Payloads: []abs.Payload{{Kind: abs.PNonce, Data: abs.HB(r.Bytes(24))}}}
+			ks, err := libsa.NewKey(raw)
+			if err != nil {
+				return err.Error()
+			}
+			w, err, p := libProtect(m, ks, true)
+			if err != nil || p != nil {
+				return fmt.Sprint("protect: ", err, p)
+			}
+			if um, _, _, uerr := ref.Unprotect(w, s, raw.Dir(true)); uerr != nil || !abs.Equal(m, um) {
+				return fmt.Sprint("independent peer: ", uerr)
+			}
+			return ""
+		}},
+	}
+	for _, st := range storms {
+		for _, slow := range []bool{false, true} {
+			st, slow := st, slow
+			name := "storm: 64 goroutines inside " + st.name + " at once"
+			if slow {
+				name += " (slow random source)"
+			}
+			registerFresh("C18", freshCase{name, func(rep int) string {
+				if slow {
+					rand.Reader = slowReader{rand.Reader}
+				}
+				const G = 64
+				var wg, ready sync.WaitGroup
+				start := make(chan struct{})
+				bad := make([]string, G)
+				for g := 0; g < G; g++ {
+					wg.Add(1)
+					ready.Add(1)
+					go func(g int) {
+						defer wg.Done()
+						r := core.NewRng(uint64(rep), 1818, uint64(g))
+						ready.Done()
+						<-start
+						for it := 0; it < 3 && bad[g] == ""; it++ {
+							if p := core.Try(func() { bad[g] = st.f(r) }); p != nil {
+								bad[g] = "panic: " + p.Value
+							}
+						}
+					}(g)
+				}
+				ready.Wait()
+				close(start)
+				wg.Wait() // a deadlock inside the library keeps this from returning: the parent's (repeated) time limit reports it
+				for g, b := range bad {
+					if b != "" {
+						return fmt.Sprintf("goroutine %d: %s", g, b)
+					}
+				}
+				return ""
+			}})
+		}
 	}
 	for _, j := range jobs {
 		j := j
